@@ -3,6 +3,9 @@
 // Coq terms (cases.v) and judges every observation against an independent Go reference (one map keyed by
 // realm||key).  Every buffer handed to the store is scribbled on right after the call returned and every
 // buffer handed out by the store is scribbled on after it was recorded (aliasing probe).
+// Round 2: Iterate/IterateKeys consumers may call back into the store (op.Script: the operations performed at
+// callback 0, 1, ... through any view / wrapper / batch); the one-map reference delivers the snapshot taken at
+// the start of the call and applies the nested operations in order.
 package main
 
 import (
@@ -31,6 +34,24 @@ type op struct {
 	Lim     int    `json:"lim,omitempty"`
 	ID      uint64 `json:"id,omitempty"`
 	Filters []byte `json:"filters,omitempty"`
+	Script  [][]op `json:"script,omitempty"` // iter / iterkeys only: what the consumer does to the store at callback j
+}
+
+func (o op) reentrant() bool { return (o.K == "iter" || o.K == "iterkeys") && len(o.Script) > 0 }
+
+// hcoq: the operation as a history element (Model.hop)
+func (o op) hcoq() string {
+	if !o.reentrant() {
+		return "HOp (" + o.coq() + ")"
+	}
+	return fmt.Sprintf("HIterRe %s %s %s %s %s %s", vx.Nat(o.H), vx.Bool(o.K == "iterkeys"), vx.Bytes(o.A), dirNames[o.Dir], vx.Nat(o.Lim),
+		vx.ListOf(o.Script, func(l []op) string { return vx.ListOf(l, op.coq) }))
+}
+
+// nested: an operation performed inside a consumer callback is always a plain one
+func nested(o op) op {
+	o.Script = nil
+	return o
 }
 
 var dirNames = []string{"DDefault", "DFwd", "DBwd", "DBad"}
@@ -93,6 +114,40 @@ type obs struct {
 	B    bool
 	KVs  []kvPair
 	Keys [][]byte
+	// results of the calls the consumer made during this call, in the order they returned
+	Inner []obs
+}
+
+// coqs: the result list of one history operation (own result, then the nested calls' results)
+func (x obs) coqs() string {
+	l := []string{x.coq()}
+	for _, y := range x.Inner {
+		l = append(l, y.coq())
+	}
+	return "[" + strings.Join(l, "; ") + "]"
+}
+
+func (x obs) full() string {
+	if len(x.Inner) == 0 {
+		return x.String()
+	}
+	l := []string{}
+	for _, y := range x.Inner {
+		l = append(l, y.String())
+	}
+	return x.String() + " nested{" + strings.Join(l, " | ") + "}"
+}
+
+func (x obs) anyOther() bool {
+	if x.Kind == "other" || x.Kind == "hang" {
+		return true
+	}
+	for _, y := range x.Inner {
+		if y.anyOther() {
+			return true
+		}
+	}
+	return false
 }
 
 func (x obs) coq() string {
@@ -349,6 +404,11 @@ func (im *impl) do(o op) (res obs) {
 			out.KVs = append(out.KVs, kvPair{cp(k), cp(v)})
 			scribble(k)
 			scribble(v)
+			if n < len(o.Script) { // the consumer calls back into the store
+				for _, sub := range o.Script[n] {
+					out.Inner = append(out.Inner, im.do(nested(sub)))
+				}
+			}
 			n++
 			return n < o.Lim
 		}, dirArgs(o.Dir)...)
@@ -364,6 +424,11 @@ func (im *impl) do(o op) (res obs) {
 		err := s.IterateKeys(p, func(k []byte) bool {
 			out.Keys = append(out.Keys, cp(k))
 			scribble(k)
+			if n < len(o.Script) {
+				for _, sub := range o.Script[n] {
+					out.Inner = append(out.Inner, im.do(nested(sub)))
+				}
+			}
 			n++
 			return n < o.Lim
 		}, dirArgs(o.Dir)...)
@@ -446,6 +511,9 @@ type ref struct {
 	batches []refBatch
 	log     []logEnt
 	flushes int
+	// distribution only: re-entrant iterations / nested calls executed / nested calls that changed an entry of the
+	// snapshot that had not been delivered yet (the situation in which a non-snapshot iteration shows)
+	reIters, reCalls, reHits int
 }
 
 func nFlush(stack []wrap) int {
@@ -504,6 +572,16 @@ func (r *ref) scan(realm, prefix []byte, dir, lim int) []kvPair {
 		out = append(out, kvPair{[]byte(k[len(realm):]), cp(r.m[k])})
 	}
 	return out
+}
+
+// pending: the current content of the map at the snapshot entries that are still to be delivered
+func (r *ref) pending(realm []byte, rest []kvPair) string {
+	var sb strings.Builder
+	for _, p := range rest {
+		x, has := r.m[string(realm)+string(p.K)]
+		fmt.Fprintf(&sb, "%v:%x;", has, x)
+	}
+	return sb.String()
 }
 
 func (r *ref) do(o op) obs {
@@ -616,15 +694,31 @@ func (r *ref) do(o op) obs {
 		if o.Dir == 3 {
 			return obs{Kind: "panic"}
 		}
+		// the snapshot: keys and values as they are together now (scan copies the values)
 		l := r.scan(v.realm, o.A, o.Dir, o.Lim)
-		if o.K == "iter" {
-			return obs{Kind: "kvs", KVs: l}
+		res := obs{Kind: "kvs", KVs: l}
+		if o.K == "iterkeys" {
+			ks := [][]byte{}
+			for _, p := range l {
+				ks = append(ks, p.K)
+			}
+			res = obs{Kind: "keys", Keys: ks}
 		}
-		ks := [][]byte{}
-		for _, p := range l {
-			ks = append(ks, p.K)
+		// the consumer is called once per delivered entry and performs its nested calls on the one map
+		if len(o.Script) > 0 {
+			r.reIters++
 		}
-		return obs{Kind: "keys", Keys: ks}
+		for j := 0; j < len(l) && j < len(o.Script); j++ {
+			for _, sub := range o.Script[j] {
+				before := r.pending(v.realm, l[j+1:])
+				res.Inner = append(res.Inner, r.do(nested(sub)))
+				r.reCalls++
+				if before != r.pending(v.realm, l[j+1:]) {
+					r.reHits++
+				}
+			}
+		}
+		return res
 	case "batched":
 		r.batches = append(r.batches, refBatch{realm: v.realm, stack: v.stack})
 	}
@@ -632,20 +726,24 @@ func (r *ref) do(o op) obs {
 }
 
 // judge: the property itself on the implementation's observations.
+var lastRef *ref // the reference of the last judged history (distribution counters)
+
 func judge(h []op, o []obs, lg []logEnt, nfl int, hung bool) (bool, string) {
+	lastRef = nil
 	if hung {
 		for i, x := range o {
 			if x.Kind == "hang" {
-				return false, fmt.Sprintf("op %d (%s) did not return within 20 s", i, h[i].K)
+				return false, fmt.Sprintf("op %d (%s) did not return within 20 s", i, h[i].hcoq())
 			}
 		}
 		return false, "history did not finish within 20 s"
 	}
 	r := newRef()
+	lastRef = r
 	for i, x := range h {
 		want := r.do(x)
-		if want.coq() != o[i].coq() || o[i].Kind == "other" {
-			return false, fmt.Sprintf("op %d %s: implementation %s, one-map reference %s", i, x.coq(), o[i], want)
+		if want.coqs() != o[i].coqs() || o[i].anyOther() {
+			return false, fmt.Sprintf("op %d %s: implementation %s, one-map reference %s", i, x.hcoq(), o[i].full(), want.full())
 		}
 	}
 	if nfl != r.flushes {
@@ -688,6 +786,24 @@ type gen struct {
 	realmOf [][]byte // realm of every view handle
 	bRealm  [][]byte // realm of every batch handle
 	written [][]byte // full keys written so far
+	focus   bool     // history concentrating on re-entrant consumers: more entries, long iterations
+}
+
+// reIter: an iteration with a re-entrant consumer over a large part of the view (short prefix, mostly no early stop)
+func (g *gen) reIter(v int) op {
+	rl := g.realmOf[v]
+	o := op{K: "iter", H: v, Dir: g.dir(), Lim: 100}
+	if g.r.Chance(1, 3) {
+		o.K = "iterkeys"
+	}
+	if g.r.Chance(1, 2) {
+		o.A = g.key(rl, 1, true)
+	}
+	if g.r.Chance(1, 4) {
+		o.Lim = 1 + g.r.Intn(4)
+	}
+	o.Script = g.script(append(cp(rl), o.A...))
+	return o
 }
 
 // key relative to realm: half of the time (the beginning of) a key that was written through some view
@@ -802,6 +918,14 @@ func (g *gen) next() op {
 			return op{K: "bcommit", H: b}
 		}
 	}
+	if g.focus && !g.closed {
+		switch kk := g.r.Intn(10); {
+		case kk < 3:
+			return g.reIter(v)
+		case kk < 5:
+			k = 0 // a Set
+		}
+	}
 	switch {
 	case k < 24:
 		o := op{K: "set", H: v, A: g.key(rl, 2, false), B: g.value()}
@@ -818,9 +942,17 @@ func (g *gen) next() op {
 	case k < 53:
 		return op{K: "clear", H: v}
 	case k < 67:
-		return op{K: "iter", H: v, A: g.key(rl, 2, true), Dir: g.dir(), Lim: g.lim()}
+		o := op{K: "iter", H: v, A: g.key(rl, 2, true), Dir: g.dir(), Lim: g.lim()}
+		if g.r.Chance(1, 2) {
+			o.Script = g.script(append(cp(rl), o.A...))
+		}
+		return o
 	case k < 76:
-		return op{K: "iterkeys", H: v, A: g.key(rl, 2, true), Dir: g.dir(), Lim: g.lim()}
+		o := op{K: "iterkeys", H: v, A: g.key(rl, 2, true), Dir: g.dir(), Lim: g.lim()}
+		if g.r.Chance(2, 5) {
+			o.Script = g.script(append(cp(rl), o.A...))
+		}
+		return o
 	case k < 79:
 		return op{K: "flush", H: v}
 	case k < 81:
@@ -852,9 +984,101 @@ func (g *gen) next() op {
 	}
 }
 
+// script: what a re-entrant consumer does at callbacks 0..n-1 (1-3 nested calls each, some callbacks passive).
+// The nested calls never create handles and never close the store (whether a callback runs depends on the
+// store's content, the generator's handle bookkeeping must not); directed cases cover Close inside a callback.
+func (g *gen) script(iterFull []byte) [][]op {
+	n := 1 + g.r.Intn(3)
+	sc := make([][]op, n)
+	for j := range sc {
+		if j > 0 && g.r.Chance(1, 3) {
+			sc[j] = []op{}
+			continue
+		}
+		k := 1 + g.r.Intn(2)
+		if g.r.Chance(1, 6) {
+			k = 3
+		}
+		for i := 0; i < k; i++ {
+			sc[j] = append(sc[j], g.consumerOp(iterFull))
+		}
+	}
+	return sc
+}
+
+// target of a nested call: mostly an entry the running iteration may have in its snapshot (a written full key
+// carrying realm||prefix of the iteration), addressed through ANY view whose realm is a prefix of that key
+// (the iterated view, its parent, a sibling with the same realm, a wrapper)
+func (g *gen) target(iterFull []byte) (int, []byte) {
+	if len(g.written) > 0 && g.r.Chance(7, 10) {
+		for try := 0; try < 6; try++ {
+			w := vx.Pick(g.r, g.written)
+			if !strings.HasPrefix(string(w), string(iterFull)) {
+				continue
+			}
+			cands := []int{}
+			for v, rl := range g.realmOf {
+				if strings.HasPrefix(string(w), string(rl)) {
+					cands = append(cands, v)
+				}
+			}
+			v := vx.Pick(g.r, cands) // the root view (empty realm) always qualifies
+			return v, cp(w[len(g.realmOf[v]):])
+		}
+	}
+	v := g.r.Intn(g.nviews)
+	return v, g.key(g.realmOf[v], 2, false)
+}
+
+func (g *gen) consumerOp(iterFull []byte) op {
+	if g.nbatch > 0 && g.r.Chance(1, 6) {
+		b := g.r.Intn(g.nbatch)
+		switch kk := g.r.Intn(10); {
+		case kk < 3:
+			o := op{K: "bset", H: b, A: g.key(g.bRealm[b], 2, false), B: g.value()}
+			g.written = append(g.written, append(cp(g.bRealm[b]), o.A...))
+			return o
+		case kk < 5:
+			return op{K: "bdel", H: b, A: g.key(g.bRealm[b], 2, false)}
+		case kk < 6:
+			return op{K: "bcancel", H: b}
+		default:
+			return op{K: "bcommit", H: b}
+		}
+	}
+	v, key := g.target(iterFull)
+	rl := g.realmOf[v]
+	switch k := g.r.Intn(100); {
+	case k < 40:
+		o := op{K: "set", H: v, A: key, B: g.value()}
+		g.written = append(g.written, append(cp(rl), key...))
+		return o
+	case k < 62:
+		return op{K: "delete", H: v, A: key}
+	case k < 70:
+		if len(key) > 0 {
+			key = key[:g.r.Intn(len(key)+1)]
+		}
+		return op{K: "delprefix", H: v, A: key}
+	case k < 73:
+		return op{K: "clear", H: v}
+	case k < 85:
+		return op{K: "get", H: v, A: key}
+	case k < 90:
+		return op{K: "has", H: v, A: key}
+	case k < 95:
+		return op{K: "iter", H: v, A: g.key(rl, 2, true), Dir: g.dir(), Lim: g.lim()}
+	case k < 98:
+		return op{K: "iterkeys", H: v, A: g.key(rl, 2, true), Dir: g.dir(), Lim: g.lim()}
+	default:
+		return op{K: "flush", H: v}
+	}
+}
+
 func genHistory(r *vx.Rng, n int) []op {
 	g := &gen{r: r, nviews: 1, realmOf: [][]byte{{}}}
 	h := g.setup()
+	g.focus = r.Chance(1, 3)
 	closeAt := -1
 	if r.Chance(1, 3) {
 		closeAt = n/2 + r.Intn(n/2+1)
@@ -900,6 +1124,26 @@ func directed() [][]op {
 			{K: "set", H: 0, A: b(0xfe, 0xff), B: b(4)}, {K: "set", H: 1, A: b(0xff, 0), B: b(5)}, {K: "iter", H: 1, A: b(0xff), Dir: 2, Lim: 2},
 			{K: "iterkeys", H: 1, A: b(0xff), Dir: 1, Lim: 100}, {K: "iterkeys", H: 0, A: b(0xff, 0xff), Dir: 2, Lim: 3}, {K: "iter", H: 1, Dir: 3, Lim: 1},
 			{K: "clear", H: 1}, {K: "iter", H: 0, Lim: 100}},
+		// re-entrant consumers (round 2): the iteration delivers the snapshot of the call instant.
+		// while handling the first entry the consumer rewrites one and removes another of the entries still to come,
+		// through the iterated view and through the root view; both directions, Iterate and IterateKeys
+		{{K: "withrealm", H: 0, A: b(0x72)}, {K: "set", H: 1, A: b(1), B: b(10)}, {K: "set", H: 1, A: b(2), B: b(20)}, {K: "set", H: 1, A: b(3), B: b(30)}, {K: "set", H: 1, A: b(4), B: b(40)},
+			{K: "iter", H: 1, Dir: 1, Lim: 100, Script: [][]op{{{K: "set", H: 1, A: b(2), B: b(21)}, {K: "delete", H: 0, A: b(0x72, 3)}, {K: "get", H: 1, A: b(2)}}}},
+			{K: "iter", H: 1, Dir: 2, Lim: 100, Script: [][]op{{{K: "set", H: 1, A: b(2), B: b(22)}, {K: "delete", H: 0, A: b(0x72, 1)}, {K: "set", H: 0, A: b(0x72, 3), B: b(33)}}}},
+			{K: "iterkeys", H: 1, Dir: 1, Lim: 100, Script: [][]op{{{K: "delete", H: 1, A: b(3)}, {K: "set", H: 1, A: b(5), B: b(50)}}, {}, {{K: "has", H: 1, A: b(3)}}}},
+			{K: "iter", H: 0, Lim: 100}},
+		// the consumer empties what is being iterated (DeletePrefix / Clear through wrappers, a batch Commit), stops early
+		{{K: "withrealm", H: 0, A: b(0)}, {K: "wrapflush", H: 1}, {K: "wrapdebug", H: 2, ID: 1}, {K: "batched", H: 1},
+			{K: "set", H: 1, A: b(0xff), B: b(1)}, {K: "set", H: 1, A: b(0xff, 0), B: b(2)}, {K: "set", H: 1, A: b(0xff, 0xff), B: b(3)}, {K: "set", H: 0, A: b(0, 0x61), B: b(4)},
+			{K: "bset", H: 0, A: b(0xff, 0), B: b(9)}, {K: "bdel", H: 0, A: b(0xff, 0xff)},
+			{K: "iter", H: 3, A: b(0xff), Dir: 2, Lim: 100, Script: [][]op{{{K: "bcommit", H: 0}}, {{K: "get", H: 1, A: b(0xff, 0)}}}},
+			{K: "iter", H: 3, A: b(0xff), Lim: 100, Script: [][]op{{{K: "delprefix", H: 2, A: b(0xff)}}, {{K: "set", H: 3, A: b(0xff, 0x61), B: b(5)}}, {{K: "iterkeys", H: 0, Lim: 100}}}},
+			{K: "iterkeys", H: 2, Lim: 2, Script: [][]op{{{K: "clear", H: 3}}, {{K: "set", H: 1, A: b(1), B: b(6)}}, {{K: "set", H: 1, A: b(2), B: b(7)}}}},
+			{K: "iter", H: 0, Lim: 100}},
+		// Close inside a callback: the snapshot is still delivered, every nested call after it fails
+		{{K: "set", H: 0, A: b(1), B: b(1)}, {K: "set", H: 0, A: b(2), B: b(2)}, {K: "set", H: 0, A: b(3), B: b(3)},
+			{K: "iter", H: 0, Lim: 100, Script: [][]op{{{K: "set", H: 0, A: b(2), B: b(9)}}, {{K: "close", H: 0}, {K: "set", H: 0, A: b(3), B: b(9)}}, {{K: "get", H: 0, A: b(2)}}}},
+			{K: "iter", H: 0, Lim: 100, Script: [][]op{{{K: "set", H: 0, A: b(1), B: b(9)}}}}, {K: "get", H: 0, A: b(2)}},
 	}
 }
 
@@ -930,11 +1174,19 @@ func emit(cf *vx.CasesFile, st *vx.Stats, h []op, tag string) {
 	}
 	o, lg, nfl, hung := runHistory(h)
 	hungOnce = hung
-	cf.Add(fmt.Sprintf("mk %s %s %s %s", vx.ListOf(h, op.coq), vx.ListOf(o, obs.coq), vx.ListOf(lg, logEnt.coq), vx.Nat(nfl)))
+	cf.Add(fmt.Sprintf("mk %s %s %s %s", vx.ListOf(h, op.hcoq), vx.ListOf(o, obs.coqs), vx.ListOf(lg, logEnt.coq), vx.Nat(nfl)))
 	parts := make([]string, len(h))
 	for i, x := range h {
-		parts[i] = x.coq()
+		parts[i] = x.hcoq()
 		st.Count("op:" + x.K)
+		if x.reentrant() {
+			st.Count("op:" + x.K + "-reentrant")
+			for _, cb := range x.Script {
+				for _, sub := range cb {
+					st.Count("nested-op:" + sub.K)
+				}
+			}
+		}
 		st.Count("out:" + o[i].Kind)
 		if x.K == "iter" || x.K == "iterkeys" {
 			st.Count("dir:" + dirNames[x.Dir])
@@ -955,12 +1207,27 @@ func emit(cf *vx.CasesFile, st *vx.Stats, h []op, tag string) {
 	if tag == "random" {
 		obsS := make([]string, len(o))
 		for i := range o {
-			obsS[i] = o[i].String()
+			obsS[i] = o[i].full()
 		}
 		st.Sample(map[string]any{"history": parts, "observed": obsS}, 2)
 	}
-	if ok, why := judge(h, o, lg, nfl, hung); !ok {
+	ok, why := judge(h, o, lg, nfl, hung)
+	if !ok {
 		st.Fail(map[string]any{"sig": "", "history": h, "why": why})
+	}
+	if lastRef != nil && ok {
+		for i := 0; i < lastRef.reIters; i++ {
+			st.Count("reentrant-iterations")
+		}
+		for i := 0; i < lastRef.reCalls; i++ {
+			st.Count("nested-calls-executed")
+		}
+		for i := 0; i < lastRef.reHits; i++ {
+			st.Count("nested-calls-changing-an-undelivered-snapshot-entry")
+		}
+		if lastRef.reHits > 0 {
+			st.Count("histories-with-a-write-to-an-undelivered-snapshot-entry")
+		}
 	}
 }
 
@@ -1012,7 +1279,7 @@ func main() {
 	in := fs.String("in", "", "JSON history to replay")
 	_ = fs.Parse(os.Args[2:])
 	r := vx.NewRng(*seed)
-	st := vx.NewStats("operation histories over a tree of mapdb realm views (realms {e,00,00ff,ff,ffff,61}, WithRealm/WithExtendedRealm), flushkv/debug wrapper stacks and batches; keys/prefixes of length 0-3 over {00,61,ff}; both iteration directions, default and invalid direction, random stop index; Close at a random late point; every caller buffer scribbled after the call, every returned buffer scribbled after recording; distinct = distinct histories; non-trivial = at least one successful write and one read that returned data")
+	st := vx.NewStats("operation histories over a tree of mapdb realm views (realms {e,00,00ff,ff,ffff,61}, WithRealm/WithExtendedRealm), flushkv/debug wrapper stacks and batches; keys/prefixes of length 0-3 over {00,61,ff}; both iteration directions, default and invalid direction, random stop index; about half of the Iterate / IterateKeys consumers call back into the store (1-3 nested Set/Delete/DeletePrefix/Clear/Get/Has/Iterate/batch calls per callback through any view, wrapper or batch, aimed at entries of the running iteration); Close at a random late point; every caller buffer scribbled after the call, every returned buffer scribbled after recording; distinct = distinct histories; non-trivial = at least one successful write and one read that returned data")
 	cf := &vx.CasesFile{
 		Header: "From Coq Require Import NArith List.\nFrom Verif.C04_KV Require Import Model Corr.\nImport ListNotations.\nOpen Scope N_scope.\n",
 		Type:   "case",
@@ -1030,7 +1297,7 @@ func main() {
 		}
 		o, lg, nfl, hung := runHistory(h)
 		for i, x := range h {
-			fmt.Printf("%3d %-60s -> %s\n", i, x.coq(), o[i])
+			fmt.Printf("%3d %-60s -> %s\n", i, x.hcoq(), o[i].full())
 		}
 		ok, why := judge(h, o, lg, nfl, hung)
 		fmt.Printf("one-map reference agrees: %v %s\n", ok, why)
